@@ -7,6 +7,7 @@ PLAN = {
     # property: (engine, quick runs, thorough runs)
     'C13': ('fcsim', 2400, 60000),
     'C10': ('fcsim', 2400, 60000),
+    'C04': ('catsim', 4000, 100000),
     'C05': ('rngsim', 3000, 80000),
     'C06': ('rngsim', 3000, 80000),
     'C16': ('rngsim', 3000, 80000),
